@@ -49,6 +49,9 @@ def case(args):
                 rel = b"view/cur/../" + name
                 full = os.path.join(wd.encode(), b"store/v1", name)
                 sub = b"view/cur/.."
+            if use_wd and rnd.random() < 0.2:
+                # spelled exactly like the command's declared input, but relative to the working directory: a different file
+                rel = b"src/main.c"; full = os.path.join(wd.encode(), rel); relative = True; sub = b"src"
             written = rel if relative else os.path.join(wd.encode(), rel)   # `full` is where the file really lives
             exists = rnd.random() < 0.7
             if any(p["full"] == full for p in paths):
@@ -114,7 +117,7 @@ def case(args):
             res["paths"] += 1
             special = sorted(set(ch for ch in " #$\\:%'\"" if ch.encode() in os.path.basename(p["written"])))
             klass = "%s, %s path%s%s%s%s" % (style, "relative" if p["relative"] else "absolute", ", working-directory set" if use_wd else "", (", name contains " + "".join(special)) if special else "",
-                                          ", '..' after a symlinked directory" if b"view/cur/../" in p["written"] else "",
+                                          ", '..' after a symlinked directory" if b"view/cur/../" in p["written"] else (", spelled like a declared input" if p["written"] == b"src/main.c" else ""),
                                           (", file %d of %d dependency files" % (paths.index(p) % ndeps + 1, ndeps)) if ndeps > 1 else "")
             if p["exists"]:
                 # edit, then delete
